@@ -562,7 +562,7 @@ type walkCase struct {
 	Spec  *ASpec        `json:"spec"`
 	State *AState       `json:"state"`
 	Msgs  []interface{} `json:"messages"`
-	Limit int           `json:"limit"` // -1 = nil control
+	Limit int           `json:"limit"` // -1 = nil control; <= -2: that negative limit
 	Bp    *bpSpec       `json:"breakpoint"`
 	Go    interface{}   `json:"go"`
 }
@@ -586,6 +586,9 @@ func walkComponent(g *G, n int, opts map[string]string) *Out {
 		limit := g.intn(13)
 		if g.chance(0.2) {
 			limit = -1
+		} else if g.chance(0.04) {
+			// a negative limit (not the nil control): no step may be taken (D52: crashed Walk)
+			limit = -2 - g.intn(6)
 		}
 		bp := &bpSpec{Kind: "none"}
 		if replay != nil {
@@ -617,7 +620,7 @@ func walkComponent(g *G, n int, opts map[string]string) *Out {
 			continue
 		}
 		var ctl *core.Control
-		if limit >= 0 {
+		if limit >= 0 || limit <= -2 {
 			ctl = &core.Control{Limit: limit, Breakpoints: bp.breakpoints()}
 		} else {
 			bp = &bpSpec{Kind: "none"}
@@ -679,6 +682,8 @@ func walkComponent(g *G, n int, opts map[string]string) *Out {
 		lim := "None"
 		if limit >= 0 {
 			lim = fmt.Sprintf("(Some %d%%nat)", limit)
+		} else if limit <= -2 {
+			lim = "(Some 0%nat)" // `for i := 0; i < c.Limit; i++` with a negative limit: as with 0
 		}
 		term := fmt.Sprintf("(mk_wcase %s %s %s %s %s %s %s %s %s %s)", as.coq(), st.coq(), coqList(ms), lim, bp.coq(), gor,
 			coqBool(r1.Intact && r2.Intact), coqBool(r1.Shared || r2.Shared), coqBool(r1.key() == r2.key()), coqBool(splitAgree))
